@@ -221,6 +221,48 @@ func runC21(x *vt.Ctx, c SelCase) *vt.Finding {
 			return vt.Failf(fmt.Sprintf("%s:%s@%s", cls, sym, backend), "filter %s: expected %v, got %v", jsonStr(f), want, got)
 		}
 	}
+	// the image operations select nodes through the same filter (pod or include list only) and act
+	// once per selected node: ListImage answers with one message per node it asked
+	if f.NLabels == nil && len(f.Excludes) == 0 && !f.All && !f.AnyPod {
+		var wantImg []string
+		okImg := true
+		if len(f.Includes) > 0 {
+			wantImg, okImg = want, ok
+		} else {
+			for _, n := range c.Nodes {
+				down := n.Bypass || (n.Spec.NonTest && !n.Up)
+				if n.Spec.Pod == f.Pod && !down {
+					wantImg = append(wantImg, n.Spec.Name)
+				}
+			}
+			sort.Strings(wantImg)
+		}
+		ctx, cancel := context.WithTimeout(w.Ctx, 60*time.Second)
+		ch, err := w.Cal.ListImage(ctx, &types.ImageOptions{Podname: f.Pod, Nodenames: append([]string(nil), f.Includes...)})
+		var gotImg []string
+		if err == nil {
+			for m := range ch {
+				gotImg = append(gotImg, m.Nodename)
+			}
+		}
+		cancel()
+		sort.Strings(gotImg)
+		x.Label("image-op-checked")
+		if okImg && len(wantImg) > 0 {
+			if err != nil {
+				return vt.Failf(cls+":image-op-selection-failed@"+backend, "ListImage over %s: expected nodes %v, call failed: %v", jsonStr(f), wantImg, err)
+			}
+			if strings.Join(gotImg, ",") != strings.Join(wantImg, ",") {
+				sym := "image-op-wrong-set"
+				if len(gotImg) > len(uniq(gotImg)) {
+					sym = "image-op-node-acted-on-twice"
+				}
+				return vt.Failf(fmt.Sprintf("%s:%s@%s", cls, sym, backend), "ListImage over %s acted on %v, expected each of %v exactly once", jsonStr(f), gotImg, wantImg)
+			}
+		} else if err == nil && len(gotImg) > 0 && okImg {
+			return vt.Failf(cls+":image-op-extra-nodes@"+backend, "ListImage over %s acted on %v, expected no node", jsonStr(f), gotImg)
+		}
+	}
 	return nil
 }
 
